@@ -1,6 +1,7 @@
 import Driver.Json
 import Driver.OpsAlgo
 import Driver.OpsMachines
+import Driver.OpsComb
 /-
   Line protocol driver: one JSON scenario per input line, one JSON answer per output line.
 -/
@@ -21,6 +22,10 @@ def handle (j : Json) : M Json := do
   | "dhar_strategy" => opDharStrategy j
   | "enhanced_dhar" => opEnhancedDhar j
   | "greedy" => opGreedy j
+  | "parking" => opParking j
+  | "parking_gen" => opParkingGen j
+  | "superstable_count" => opSuperstableCount j
+  | "kn_parking" => opKnParking j
   | "graph_hist" => opGraphHist j
   | "div_hist" => opDivHist j
   | "div_arith" => opDivArith j
